@@ -111,6 +111,10 @@ def run(case):
         det = {"kind": "points", "pts": [[p[0] * shrink, p[1] * shrink, 0.0] for p in det["pts"]]}
         if "kz" in sc["pl"]:
             sc = dict(sc, pl=dict(sc["pl"], kz=max(-100.0, min(120.0, sc["pl"]["kz"]))))
+    if sc["th"]["t"] == "ms":
+        # as in C04/C09: the detector stays outside the sphere circumscribing the cluster with a margin; inside it
+        # the cluster-centred expansion Multisphere evaluates does not converge and the value is series noise
+        sc = dict(sc, pl=dict(sc["pl"], kgap=40.0 + sc["pl"]["kgap"]))
     s, th, info = gen.build_scene(sc, o, det)
     P = gen.detector_points_xyz(det, unit)
     if sc["th"]["t"] == "lens":
